@@ -35,6 +35,80 @@ E = {
                 theorems=["C14_mask_transparent_or_inert", "C14_false_choices_all_invalid", "C14_flip_weight"],
                 props=["C01", "C02", "C03", "C05"], opts={"upd": 3.0, "regen": 0.0, "proj": 0.0, "bwd": 0.0},
                 focus={"mask": 12.0, "masked_iterate": 2.0, "masked_iterate_final": 2.0, "vmap": 2.0}),
+    "C03": dict(title="importance weights equal the log-density of the constrained choices", strength="full",
+                modules=["GenjaxVerif.Props.C03"],
+                theorems=["C03_generate_weight", "C03_empty_constraint_weight_zero", "C03_leaf_generate",
+                          "C03_score_when_all_constrained"],
+                props=["C03"], opts={"gen": 4.0, "start_gen": 0.9, "upd": 0.3, "regen": 0.2, "proj": 0.2, "masked": 0.2}, focus={}),
+    "C06": dict(title="backward requests undo edits exactly", strength="partial",
+                modules=["GenjaxVerif.Props.C06"],
+                theorems=["C06_leaf_roundtrip_partial", "C06_backward_structure", "C06_refuted", "C06_switch_backward_unreliable"],
+                props=["C06"], opts={"upd": 4.0, "bwd": 1.0, "regen": 0.2, "proj": 0.1, "max_ops": 4}, focus={}),
+    "C08": dict(title="change tags are sound: NoChange really means unchanged", strength="partial",
+                modules=["GenjaxVerif.Props.C09", "GenjaxVerif.Props.C05"],
+                theorems=["GenjaxVerif.IR.C09_noninterference", "GenjaxVerif.IR.C09_tags_value_independent",
+                          "GenjaxVerif.IR.C09_default_rule", "C05_leaf_update"],
+                props=["C08"], opts={"upd": 4.0, "regen": 1.0, "proj": 0.0, "retag": True, "bwd": 0.2},
+                focus={"switch": 0.2, "orelse": 0.2}),
+    "C11": dict(title="vmap and repeat behave as independent elementwise calls", strength="full",
+                modules=["GenjaxVerif.Props.C11"],
+                theorems=["C11_vmap_elementwise", "C11_element_input", "C11_indexed_constraint_only_its_element",
+                          "C11_choices_under_index", "C11_zero_length", "C11_repeat_def", "C11_repeat_element_args"],
+                props=["C01", "C02", "C03", "C05"], opts={"upd": 1.5, "gen": 1.5, "regen": 0.1, "masked": 0.1},
+                focus={"vmap": 10.0, "repeat": 6.0}, zero_len=0.12),
+    "C12": dict(title="scan and its derived combinators match the documented Python loops", strength="full",
+                modules=["GenjaxVerif.Props.C12"],
+                theorems=["C12_scan_is_the_loop", "C12_final_carry", "C12_iteration_input", "C12_derived_defs",
+                          "C12_derived_return_maps"],
+                props=["C01", "C02", "C03", "C05", "C07"], opts={"upd": 1.5, "gen": 1.0, "regen": 1.0},
+                focus={"scan": 8.0, "accumulate": 3.0, "reduce": 3.0, "iterate": 3.0, "iterate_final": 3.0}),
+    "C13": dict(title="switch, or_else and mix follow exactly one branch consistently", strength="partial",
+                modules=["GenjaxVerif.Props.C13"],
+                theorems=["C13_switch_is_branch", "C13_switch_update_same_branch", "C13_switch_args", "C13_orElse_def",
+                          "C13_orElse_index", "C13_out_of_range_not_modelled"],
+                props=["C01", "C02", "C03", "C05", "C10"], opts={"upd": 1.5, "gen": 1.5, "regen": 0.0, "proj": 1.0, "bwd": 0.0},
+                focus={"switch": 10.0, "orelse": 6.0, "vmap": 2.0}),
+    "C15": dict(title="dimap, map and contramap only transform arguments and return values", strength="full",
+                modules=["GenjaxVerif.Props.C15"],
+                theorems=["C15_dimap_transparent", "C15_map_contramap_def", "C15_identity_maps", "C15_edit_uses_inner_trace"],
+                props=["C01", "C02", "C03", "C05", "C07", "C08"], opts={"upd": 2.5, "regen": 1.0},
+                focus={"int": 6.0, "dimapped": 8.0, "static": 0.5, "dist": 0.5}),
+    "C16": dict(title="masked iteration steps with a false mask are inert", strength="full",
+                modules=["GenjaxVerif.Props.C16"],
+                theorems=["C16_final_def", "C16_step"],
+                props=["C01", "C02", "C03"], opts={"upd": 0.5, "regen": 0.0, "proj": 0.0, "gen": 1.5, "bwd": 0.0},
+                focus={"masked_iterate": 10.0, "masked_iterate_final": 14.0}),
+    "C22": dict(title="the static language traces exactly the visited addresses, once each", strength="full",
+                modules=["GenjaxVerif.Props.C22"],
+                theorems=["C22_records_exactly_the_visited_addresses", "C22_tuple_addresses_nest", "C22_address_reuse",
+                          "C22_address_reuse_body", "C22_missing_address_iff"],
+                props=["C22", "C02"], opts={"assess": 2.0, "assess_partial": 0.5, "gen": 1.0, "upd": 0.5},
+                focus={"int": 6.0, "static": 6.0, "tuple_addr": 0.5, "dup_addr": 0.12}),
+    "C23": dict(title="GFI results are invariant under jax.jit and consistent under jax.vmap", strength="partial",
+                modules=["GenjaxVerif.Props.C19", "GenjaxVerif.Props.C20", "GenjaxVerif.Props.C11"],
+                theorems=["GenjaxVerif.MaskModel.C19_mode_invariance", "GenjaxVerif.MaskModel.C20_flagop_mode_invariance",
+                          "C11_vmap_elementwise"],
+                props=["C01", "C02", "C03", "C05", "C07", "C10"], opts={"jit": 0.7}, focus={}),
+    "C32": dict(title="generative function closures and keyword handling are transparent", strength="partial",
+                modules=["GenjaxVerif.Props.C32"],
+                theorems=["C32_closure_args", "C32_closure_transparent"],
+                props=["C01", "C02", "C03", "C05", "C07"], opts={"upd": 3.0, "regen": 1.5, "gen": 1.0},
+                focus={"closure": 14.0}),
+    "C34": dict(title="get_subtrace returns the sub-execution at an address", strength="partial",
+                modules=["GenjaxVerif.Props.C34"],
+                theorems=["C34_subtrace_choices", "C34_subtrace_score", "C34_delegation"],
+                props=["C34"], opts={"subtrace": 5.0, "upd": 1.0, "regen": 0.5, "proj": 0.0},
+                focus={"int": 6.0, "static": 6.0, "tuple_addr": 0.4}),
+    "C35": dict(title="masked constraint values act as conditional constraints", strength="full",
+                modules=["GenjaxVerif.Props.C35"],
+                theorems=["C35_generate_masked", "C35_update_masked", "C35_vector_elementwise"],
+                props=["C03", "C05", "C01"], opts={"gen": 3.0, "start_gen": 0.8, "upd": 3.0, "regen": 0.0, "proj": 0.0, "masked": 0.6, "bwd": 0.0},
+                focus={"vmap": 4.0, "scan": 2.0}),
+    "C38": dict(title="derived GFI methods and request combinators agree with the primitives", strength="partial",
+                modules=["GenjaxVerif.Props.C38"],
+                theorems=["C38_propose_eq_simulate", "C38_importance_eq_generate", "C38_empty_request_nochange",
+                          "C38_empty_request_changed", "C38_simulate_weight"],
+                props=["C38", "C01"], opts={"propose": 3.0, "empty": 3.0, "upd": 1.0, "regen": 0.3, "proj": 0.3}, focus={}),
 }
 
 TEMPLATE = '''"""{pid} — {title}.
@@ -49,7 +123,7 @@ FOCUS = {focus!r}
 
 
 def run(ctx):
-    gfi_check.standard_run(ctx, props=set(PROPS), focus=FOCUS, opts=OPTS, prop_id="{pid}")
+    gfi_check.standard_run(ctx, props=set(PROPS), focus=FOCUS, opts=OPTS, prop_id="{pid}", zero_len={zero_len})
 
 
 def replay(ctx, payload):
@@ -70,6 +144,7 @@ SPEC = Spec(
 
 for pid, d in E.items():
     d = dict(d)
-    d["theorems"] = [P + t for t in d["theorems"]]
+    d["theorems"] = [t if t.startswith("GenjaxVerif.") else P + t for t in d["theorems"]]
+    d.setdefault("zero_len", 0.0)
     (V / "harness" / "props" / f"{pid.lower()}.py").write_text(TEMPLATE.format(pid=pid, **d))
 print("generated", sorted(E))
